@@ -33,6 +33,19 @@ def make_project(rng, k, with_include=True):
         t2, n2, i2, o2 = g.template("Second")
         files["second.circom"] = "pragma circom 2.0.0;\n" + gen.render(t2)
         inputs.append("second.circom")
+        if rng.chance(1, 2):
+            # the second user file is also included by the first one, and the two are named in either order: a file that is
+            # both included and named on the command line stays a user input (its findings are displayed once)
+            main = main.replace("pragma circom 2.0.0 ;\n", "pragma circom 2.0.0 ;\ninclude \"second.circom\";\n", 1)
+            if rng.chance(1, 2):
+                inputs = ["second.circom", "main.circom"]
+    if rng.chance(1, 3):
+        # non-ASCII text in comments in front of code on the same line: displayed columns and SARIF columns count characters
+        lines = main.split("\n")
+        for i in range(2, len(lines)):
+            if lines[i].strip() and rng.chance(1, 4):
+                lines[i] = "/* naïve – ünïcödé µ */ " + lines[i]
+        main = "\n".join(lines)
     files["main.circom"] = main
     return {"files": files, "inputs": inputs, "libs": [], "stats": stats}
 
